@@ -258,7 +258,7 @@ def _digest(ctx, model):
                         and e.name == "update":
                     n_sinks += 1
                     v = e.args[0] if e.args else None
-                    ok, why = _stable_bytes(v)
+                    ok, why = _stable_bytes(v, ps)
                     ctx.ob(f"T/digest/{name}/input:{_short(v)}", ok,
                            ph.module.loc(e.node),
                            f"feeds {why}" if ok else
@@ -331,13 +331,24 @@ def _short(v):
     return s if len(s) < 60 else s[:57] + "..."
 
 
-def _stable_bytes(v):
-    """v should be <stable str>.encode(...)"""
+def _stable_bytes(v, ps=None):
+    """v should be <stable str>.encode(...) or a bytes literal"""
     if v is None:
         return False, "nothing"
-    if v[0] == "call" and v[1].endswith(".encode") and len(v) >= 5:
-        recv = v[4][1]
-        return _stable_str(recv)
+    if v[0] == "const" and isinstance(v[1], bytes):
+        return True, "a fixed byte string"
+    if v[0] == "call" and v[1].endswith(".encode") and (
+            len(v) >= 5 or v[1] == "node.encode"):
+        recv = v[4][1] if len(v) >= 5 else NODE
+        ok, why = _stable_str(recv)
+        if not ok and ps is not None:
+            # the characters of something the path knows to be a str
+            for _, pol, c in ps.conds:
+                if pol and isinstance(c, tuple) and c[0] == "call" and \
+                        c[1] == "isinstance" and c[2][0] == recv and \
+                        c[2][1] == ("global", "str"):
+                    return True, "the characters of a string"
+        return ok, why
     return False, f"a non-bytes value {_short(v)}"
 
 
